@@ -236,7 +236,7 @@ def run(ctx):
 
 
 META = {
-    "technique": "control dependence on the CFG of the evaluators; sibling/table agreement over the 36 operator switch tables (case label vs to<T>() / union member per arm, exhaustiveness); data-flow of the result-type variable; guard dominance",
+    "technique": "control dependence on the CFG of the evaluators; sibling/table agreement over the 36 operator switch tables (case label vs to<T>() / union member per arm, exhaustiveness); data-flow of the result-type variable; guard dominance (zero divisor, and min()/-1 through the helper the guard calls)",
     "level": "Static decision of the evaluation rules visible in code shape: the right operand of && / || and the untaken arm of ?: are not evaluated; in each of the 28 binary and 8 unary operator tables every arm "
              "operates in the type of its tag on converted operands (no raw reinterpretation of an operand of another tag) and all 11 tags are handled; shifts are typed by the left operand; integer / and % have a "
              "zero-divisor guard; suffix-less literals are narrowed only under a magnitude test. Holds for all operand values and type pairs (121 pairs per operator), which tests sample thinly.",
